@@ -63,6 +63,11 @@ func main() {
 			}
 			return
 		}
+		if *dump == "alias" {
+			debugAlias(P)
+			code = 0
+			return
+		}
 		if *dump != "" {
 			dumpPaths(P, *dump)
 			code = 0
